@@ -400,7 +400,7 @@ def check_group_names(chk, pm):
 
 
 def check_number_regex(chk, pm):
-    from .c02 import classify_expr_regexes
+    from ..exprsim import classify_expr_regexes
     rxs = classify_expr_regexes(pm.mod)
     num = [r for n, (k, r) in rxs.items() if k == 'number']
     if len(num) != 1:
@@ -621,9 +621,4 @@ def run(chk):
     chk.guard('C06.A', check_caret, chk, pm)
     from . import c02
     before = len(chk.instances)
-    chk.guard('C06.X', c02.check_rejection, chk, pm.mod)
-    for inst in chk.instances[before:]:
-        inst['rule'] = 'C06.X'
-    for f in chk.findings:
-        if f.rule in ('C02.X', 'C02.R'):
-            f.rule = 'C06.X'
+    chk.guard('C06.X', c02.check_error_texts, chk, pm.mod)
